@@ -35,7 +35,7 @@ func menu(w *chain.World) []chain.Action {
 }
 
 func run(c *vf.Ctx) {
-	c.Set("rule", "explicit-state DFS (union alphabet, leaf positions in the key, reverts); at every distinct state: door 1 (ValidateTransactionElements) for EVERY tracked element (live, spent, resolved, chain index) unmodified and under every single mutation from a reflection walk (each field +-1 / byte flips, leaf index +-1 / another element's index, each proof hash flipped, proof shortened / lengthened, another element's proof, outdated proof, element of a reverted branch, fabricated element); doors 2 and 3 (ValidateV2Transaction with re-balanced re-signed transactions; v1 block supplement) for one canonical element per kind under every mutation. Oracle: membership(mutated)=false, membership(original)=live per reference ledger")
+	c.Set("rule", "explicit-state DFS (union alphabet, leaf positions in the key, reverts); at every distinct state: door 1 (ValidateTransactionElements) for EVERY tracked element (live, spent, resolved, chain index) unmodified and under every single mutation from a reflection walk (each field +-1 / byte flips, leaf index +-1 / another element's index, each proof hash flipped, proof shortened / lengthened, another element's proof, outdated proof, element of a reverted branch, fabricated element); door 4 (parents created earlier in the same block: every created-element id of any kind x the contents of every created siacoin / siafund output); doors 2 and 3 (ValidateV2Transaction with re-balanced re-signed transactions; v1 block supplement) for one canonical element per kind under every mutation. Oracle: membership(mutated)=false, membership(original)=live per reference ledger")
 	nets := []string{"mixed", "v1-eras", "v2-only"}
 	if !c.Quick() {
 		nets = append(nets, "v2-eph5")
@@ -57,7 +57,7 @@ func run(c *vf.Ctx) {
 		x.Report(n + "/")
 	}
 	c.RequireFeature("door1_original_live_accepted", "door1_original_dead_rejected", "door1_mutant_rejected", "door2_mutant_rejected", "door2_original_accepted",
-		"door3_mutant_rejected", "door3_original_accepted", "reverted_branch_rejected", "outdated_proof_rejected", "kind:siacoin", "kind:siafund", "kind:filecontract", "kind:v2filecontract", "kind:chainindex")
+		"door3_mutant_rejected", "door3_original_accepted", "door4_mutant_rejected", "door4_original_accepted", "reverted_branch_rejected", "outdated_proof_rejected", "kind:siacoin", "kind:siafund", "kind:filecontract", "kind:v2filecontract", "kind:chainindex")
 	c.Sample(map[string]any{"door": 1, "element": "siacoin", "mutation": ".SiacoinOutput.Value.Lo+1", "expected": "rejected"})
 	c.Sample(map[string]any{"door": 3, "element": "filecontract (supplement)", "mutation": ".FileContract.ValidProofOutputs[1].Value.Lo+1", "expected": "rejected"})
 }
@@ -328,6 +328,8 @@ func doors(c *vf.Ctx, x *chain.Explorer, w *chain.World, path []string) {
 		}
 	}
 
+	// ---------- door 4: parents created earlier in the same block ----------
+	ephemeralDoor(c, x, w, path)
 	// ---------- door 3: v1 parents supplied through the block supplement ----------
 	if h < w.Net.HardforkV2.RequireHeight {
 		door3 := func(kind string, ptr any, build func() (chain.Use, bool)) {
